@@ -10,6 +10,7 @@ except ImportError:      # replays run under the repository's interpreter, witho
     z3 = None
 
 Z3_TIMEOUT_MS = int(os.environ.get('PYVC_Z3_TIMEOUT_MS', '10000'))
+QUICK_CVC5_MS = int(os.environ.get('PYVC_QUICK_CVC5_MS', '6000'))     # cvc5 on the reduced problems of the attempts
 Z3_FIRST_TIMEOUT_MS = int(os.environ.get('PYVC_Z3_FIRST_TIMEOUT_MS', '2000'))   # string obligations: z3 briefly, then cvc5, then z3 in full
 CVC5_TIMEOUT_S = int(os.environ.get('PYVC_CVC5_TIMEOUT_S', '10'))
 OLDZ3_TIMEOUT_S = int(os.environ.get('PYVC_OLDZ3_TIMEOUT_S', '20'))
@@ -179,7 +180,7 @@ def _by_rewriting(pc, goal, external=False):
             if len(sub) == 1 and z3.is_false(sub[0]):
                 continue
             s = z3.Solver()
-            s.set('timeout', 1000)
+            s.set('timeout', 2000)
             s.add(*[sub[i] for i in range(len(sub))])
             r = s.check()
             if r == z3.unsat:
@@ -291,6 +292,51 @@ def _instantiated(flat, goal):
     return uniq, goal
 
 
+def _symbols(t):
+    out = set()
+    seen = set()
+    todo = [t]
+    while todo:
+        x = todo.pop()
+        i = x.get_id()
+        if i in seen:
+            continue
+        seen.add(i)
+        if z3.is_quantifier(x):
+            todo.append(x.body())
+            continue
+        if z3.is_app(x):
+            if x.decl().kind() == z3.Z3_OP_UNINTERPRETED:
+                out.add(x.decl().name())
+            todo.extend(x.children())
+    return out
+
+
+def _relevant(hyps, goal, rounds=3):
+    """the hypotheses in the cone of influence of the goal (shared uninterpreted symbols, a few rounds; symbols
+    that occur almost everywhere do not propagate).  Dropping hypotheses is sound."""
+    syms = [(_symbols(h), h) for h in hyps]
+    count = {}
+    for ss, _h in syms:
+        for x in ss:
+            count[x] = count.get(x, 0) + 1
+    common = {x for x, n in count.items() if n > max(8, 0.4 * len(hyps))}
+    rel = set(_symbols(goal))
+    chosen = [False] * len(syms)
+    for _ in range(rounds):
+        grew = False
+        for k, (ss, _h) in enumerate(syms):
+            if not chosen[k] and (ss & rel) - common:
+                chosen[k] = True
+                new = ss - rel
+                if new:
+                    rel |= new
+                    grew = True
+        if not grew:
+            break
+    return [h for k, (_ss, h) in enumerate(syms) if chosen[k] or not _ss]
+
+
 def _attempts(flat, qf, goal, scale):
     """the cheap, hypothesis-dropping / instantiating attempts (see ENGINE.md 8); None if none succeeds"""
     t0 = time.time()
@@ -299,6 +345,9 @@ def _attempts(flat, qf, goal, scale):
     sk = _instantiated(flat, goal)
     if sk is not None:
         for g in _goal_conjuncts(z3.simplify(sk[1])):
+            rel = _relevant(sk[0], g)
+            if len(rel) < len(sk[0]) and _by_rewriting(rel, g, external=True):
+                continue
             if _by_rewriting(sk[0], g, external=True):
                 continue
             v = _discharge2(sk[0], g, False, False, scale, quick=True)
@@ -407,7 +456,7 @@ def _external(smt2, terms, scale=1, only_cvc5=False, skip_cvc5=False, quick=Fals
         t0 = time.time()
         for backend, cmd in (
                 ('cvc5-1.0.3', ['/usr/bin/cvc5', '--strings-exp',
-                                '--tlimit=%d' % (3000 if quick else CVC5_TIMEOUT_S * 1000 * scale), fn]),
+                                '--tlimit=%d' % (QUICK_CVC5_MS if quick else CVC5_TIMEOUT_S * 1000 * scale), fn]),
                 ('z3-4.8.12', ['/usr/bin/z3', '-T:%d' % (OLDZ3_TIMEOUT_S * scale), fn])):
             if only_cvc5 and not backend.startswith('cvc5'):
                 continue
